@@ -3,9 +3,9 @@
 tier=${1:-quick}
 cd "$(dirname "$0")/.."
 [ -x target/release/vengine ] || ./setup.sh
-for id in C01 C02 C03 C04 C05 C06 C07 C08 C09 C10 C11 C12 C13 C14 C15 C16 C17 C18 C19 C20; do
+for id in ${IDS:-C01 C02 C03 C04 C05 C06 C07 C08 C09 C10 C11 C12 C13 C14 C15 C16 C17 C18 C19 C20}; do
   s=$(date +%s)
-  ./check $id $tier > /tmp/run_all_$id.log 2>&1; rc=$?
+  ./check $id $tier > /tmp/run_all_${tier}_$id.log 2>&1; rc=$?
   e=$(date +%s)
-  echo "$id $tier rc=$rc time=$((e-s))s $(grep -c '^VIOLATION' /tmp/run_all_$id.log) violations; $(grep -m1 -E 'MACHINERY|KNOWN-FINDING' /tmp/run_all_$id.log | cut -c1-200)"
+  echo "$id $tier rc=$rc time=$((e-s))s $(grep -c '^VIOLATION' /tmp/run_all_${tier}_$id.log) violations; $(grep -m1 -E 'MACHINERY|KNOWN-FINDING' /tmp/run_all_${tier}_$id.log | cut -c1-200)"
 done
